@@ -11,6 +11,7 @@ import (
 	"log"
 	"net"
 	"runtime"
+	"strconv"
 	"sync"
 	"syscall"
 	"time"
@@ -25,7 +26,7 @@ type verifMirrorCase struct {
 	UDPSize int        `json:"udpsize"`
 	Dst     string     `json:"dst"`
 	Port    int        `json:"port"`
-	Dgrams  [][]string `json:"dgrams"` // [source address hex (4 or 16 octets), payload hex]
+	Dgrams  [][]string `json:"dgrams"` // [source address hex (4 or 16 octets), payload hex, optionally the exporter's source port]
 	// Burst > 1: that many datagrams are queued for the mirror goroutine BEFORE it gets to run (one P while they are queued),
 	// and only then are they looked for on the wire, in order
 	Burst int `json:"burst"`
@@ -122,6 +123,12 @@ func verifMirror(raw []byte) interface{} {
 		ip := make(net.IP, len(src))
 		copy(ip, src)
 		raddr := &net.UDPAddr{IP: ip, Port: 40000}
+		// an optional third element: the exporter's UDP source port (decimal)
+		if len(d) > 2 {
+			if p, err := strconv.Atoi(d[2]); err == nil {
+				raddr.Port = p
+			}
+		}
 		// what the worker does when mirroring is enabled: a pooled buffer holding a copy of the datagram
 		if c.Proto == "ipfix" {
 			b := ipfixBuffer.Get().([]byte)
